@@ -57,6 +57,8 @@ type cellCase struct {
 	Warm                 bool
 	Arbitrary            bool // state rows hold arbitrary small non-negative values
 	Snapped              bool // some inputs sit exactly on table knots / thresholds
+	Mixed                bool // cells differ in state-vector width (zero-padded rows)
+	own                  []int
 	cols                 [][]float64
 	inBlocks             [][][]float64 // [block][input][t]
 	stateRows            [][]float64
@@ -117,12 +119,30 @@ func drawCellCase(w *simrt.Tape, maxCells, maxT int) *cellCase {
 		}
 		c.stateRows = append(c.stateRows, row)
 	}
+	c.padRows()
 	return c
+}
+
+// padRows pads every state row with zeros to the width of cell 0 (the widest) and remembers the
+// cells' own widths.
+func (c *cellCase) padRows() {
+	c.own = c.own[:0]
+	w0 := len(c.stateRows[0])
+	for i, r := range c.stateRows {
+		c.own = append(c.own, len(r))
+		if len(r) > w0 {
+			panic(fmt.Sprintf("harness: %s cell %d has a wider state vector (%d) than cell 0 (%d)", c.Model, i, len(r), w0))
+		}
+		if len(r) < w0 {
+			c.Mixed = true
+			c.stateRows[i] = append(cloneF(r), make([]float64, w0-len(r))...)
+		}
+	}
 }
 
 func (c *cellCase) reference() {
 	for i := 0; i < c.N; i++ {
-		o, f := refRun(c.Model, c.desc, c.cols[i%c.P], c.MaxDim, c.stateRows[i], c.inBlocks[i%c.I], c.T)
+		o, f := refRun(c.Model, c.desc, c.cols[i%c.P], c.MaxDim, c.stateRows[i][:c.own[i]], c.inBlocks[i%c.I], c.T)
 		c.refOut = append(c.refOut, o)
 		c.refFin = append(c.refFin, f)
 	}
@@ -139,12 +159,6 @@ func engineCells(rc *RunCtx) *Outcome {
 	}
 	c := drawCellCase(rc.W, maxCells, maxT)
 	width := len(c.stateRows[0])
-	for i, r := range c.stateRows {
-		if len(r) != width {
-			// generator restriction (DESIGN: InitialiseStates sizes the array from cell 0)
-			panic(fmt.Sprintf("harness: %s state widths differ between cells (%d vs %d, cell %d)", c.Model, width, len(r), i))
-		}
-	}
 	c.reference()
 	o.Sample = c.sample()
 	nIn, nOut := len(c.desc.Inputs), len(c.desc.Outputs)
@@ -202,7 +216,7 @@ func engineCells(rc *RunCtx) *Outcome {
 			for i := 0; i < c.N; i++ {
 				for j := 0; j < width; j++ {
 					o.Checks++
-					if g, e := initAll[i*width+j], c.stateRows[i][j]; !bitsEq(g, e) {
+					if g, e := initAll[i*width+j], c.stateRows[i][j]; !bitsEq(g, e) { // padded rows: zeros beyond the cell's own width
 						o.fail("initial-states-differ", c.Model+"/init-states", "%s: InitialiseStates(%d)[cell %d][%d] = %v, the cell alone (parameter set %d of %d) gets %v", c.Model, c.N, i, j, g, i%c.P, c.P, e)
 						return o
 					}
@@ -249,7 +263,10 @@ func engineCells(rc *RunCtx) *Outcome {
 			}
 			for j := 0; j < width; j++ {
 				o.Checks++
-				g, e := gotSt[i*width+j], c.refFin[i][j]
+				g, e := gotSt[i*width+j], 0.0
+				if j < c.own[i] {
+					e = c.refFin[i][j]
+				}
 				if !bitsEq(g, e) {
 					o.fail("cell-state-differs", c.Model+"/state", "%s: cell %d final state[%d] = %v, one-cell run gives %v (cells=%d sets=%d blocks=%d T=%d schedule %d/%d)",
 						c.Model, i, j, g, e, c.N, c.P, c.I, c.T, k+1, K)
@@ -301,6 +318,9 @@ func engineCells(rc *RunCtx) *Outcome {
 	if c.Snapped {
 		o.probe("inputs_exactly_on_knots_or_thresholds")
 	}
+	if c.Mixed {
+		o.probe("cells_with_different_state_widths(zero_padded_rows)")
+	}
 	if c.MaxDim > 32 {
 		o.probe("table_longer_than_32_rows")
 	}
@@ -344,5 +364,6 @@ func drawSibling(w *simrt.Tape, a *cellCase) *cellCase {
 	for i := 0; i < c.N; i++ {
 		c.stateRows = append(c.stateRows, initialStateRow(c.Model, c.desc, c.cols[i%c.P], c.MaxDim))
 	}
+	c.padRows()
 	return c
 }
